@@ -607,6 +607,117 @@ func (r *recorder) OnObjectEnd() error              { r.evs = append(r.evs, "}")
 func (r *recorder) OnArrayBegin(capacity int) error { r.evs = append(r.evs, "["); return nil }
 func (r *recorder) OnArrayEnd() error               { r.evs = append(r.evs, "]"); return nil }
 
+// a visitor that answers VisitOPSkip to the Begin callback of the chosen containers (numbered as they are announced)
+type skipRecorder struct {
+	recorder
+	skips map[int]bool
+	k     int
+}
+
+func (r *skipRecorder) OnObjectBegin(capacity int) error {
+	r.evs = append(r.evs, "{")
+	r.k++
+	if r.skips[r.k-1] {
+		return ast.VisitOPSkip
+	}
+	return nil
+}
+
+func (r *skipRecorder) OnArrayBegin(capacity int) error {
+	r.evs = append(r.evs, "[")
+	r.k++
+	if r.skips[r.k-1] {
+		return ast.VisitOPSkip
+	}
+	return nil
+}
+
+// the encoding/json token stream with the subtrees of the skipped containers removed (Begin and End stay)
+func oracleEventsSkip(doc string, skips map[int]bool) string {
+	dec := json.NewDecoder(strings.NewReader(doc))
+	dec.UseNumber()
+	var evs []string
+	type frame struct {
+		obj   bool
+		isKey bool
+	}
+	var st []frame
+	k := 0
+	valueDone := func() {
+		if len(st) > 0 && st[len(st)-1].obj {
+			st[len(st)-1].isKey = true
+		}
+	}
+	for {
+		tok, err := dec.Token()
+		if err == io.EOF {
+			break
+		}
+		if err != nil {
+			return "error"
+		}
+		keyPos := len(st) > 0 && st[len(st)-1].obj && st[len(st)-1].isKey
+		switch v := tok.(type) {
+		case json.Delim:
+			switch v {
+			case '{', '[':
+				evs = append(evs, string(rune(v)))
+				k++
+				if skips[k-1] {
+					// drop everything up to the matching close
+					depth := 1
+					for depth > 0 {
+						t2, err := dec.Token()
+						if err != nil {
+							return "error"
+						}
+						if d, ok := t2.(json.Delim); ok {
+							if d == '{' || d == '[' {
+								depth++
+							} else {
+								depth--
+							}
+						}
+					}
+					if v == '{' {
+						evs = append(evs, "}")
+					} else {
+						evs = append(evs, "]")
+					}
+					valueDone()
+					continue
+				}
+				st = append(st, frame{obj: v == '{', isKey: true})
+				continue
+			case '}', ']':
+				evs = append(evs, string(rune(v)))
+				st = st[:len(st)-1]
+				valueDone()
+				continue
+			}
+		case string:
+			if keyPos {
+				evs = append(evs, "K"+hex.EncodeToString([]byte(v)))
+				st[len(st)-1].isKey = false
+				continue
+			}
+			evs = append(evs, "S"+hex.EncodeToString([]byte(v)))
+		case json.Number:
+			evs = append(evs, "N"+hex.EncodeToString([]byte(string(v))))
+		case bool:
+			if v {
+				evs = append(evs, "T")
+			} else {
+				evs = append(evs, "F")
+			}
+		case nil:
+			evs = append(evs, "Z")
+		}
+		valueDone()
+	}
+	return strings.Join(evs, " ")
+}
+
 func errClassSearch(err error) string {
 	if err == nil {
 		return "ok"
@@ -874,9 +985,21 @@ func checkViews(n *ast.Node, want string, problems *[]string) {
 }
 
 type Case struct {
-	ID   string
-	Text string
-	Path []Sel
+	ID    string
+	Text  string
+	Path  []Sel
+	Skips []int // ordinals of the containers for which the visitor answers VisitOPSkip
+}
+
+func skipsString(s []int) string {
+	if len(s) == 0 {
+		return "-"
+	}
+	xs := make([]string, len(s))
+	for i, v := range s {
+		xs[i] = strconv.Itoa(v)
+	}
+	return strings.Join(xs, ",")
 }
 
 func runCase(c *Case) string {
@@ -984,6 +1107,30 @@ func runCase(c *Case) string {
 	if oe := oracleEvents(c.Text); oe != pres {
 		problems = append(problems, "Preorder events differ from the encoding/json token stream: "+pres+" / "+oe)
 	}
+	// ---- preorder with a visitor that skips containers
+	skipset := map[int]bool{}
+	for _, v := range c.Skips {
+		skipset[v] = true
+	}
+	srec := &skipRecorder{skips: skipset}
+	srec.problems = &problems
+	pskip := ""
+	func() {
+		defer func() {
+			if r := recover(); r != nil {
+				pskip = "panic"
+			}
+		}()
+		if err := ast.Preorder(c.Text, srec, nil); err != nil {
+			pskip = "error"
+		} else {
+			pskip = strings.Join(srec.evs, " ")
+		}
+	}()
+	if oe := oracleEventsSkip(c.Text, skipset); oe != pskip {
+		msg := "Preorder with VisitOPSkip at containers " + skipsString(c.Skips) + " differs from the encoding/json token stream with those subtrees removed: " + pskip + " / " + oe
+		problems = append(problems, msg)
+	}
 	prob := "-"
 	if len(problems) > 0 {
 		for i := range problems {
@@ -998,17 +1145,24 @@ func runCase(c *Case) string {
 	if strings.HasPrefix(g, "ok:") {
 		g = "ok:" + tr(g[3:])
 	}
-	return strings.Join([]string{c.ID, g, nres, tr(pres), prob}, "\t")
+	return strings.Join([]string{c.ID, g, nres, tr(pres), prob, tr(pskip)}, "\t")
 }
 
 func (c *Case) Line() string {
-	return strings.Join([]string{c.ID, tokenize(c.Text), pathString(c.Path), out.HexS(c.Text)}, "\t")
+	return strings.Join([]string{c.ID, tokenize(c.Text), pathString(c.Path), out.HexS(c.Text), skipsString(c.Skips)}, "\t")
 }
 
 func parseCase(line string) *Case {
 	f := strings.Split(line, "\t")
 	b, _ := hex.DecodeString(f[3])
-	return &Case{ID: f[0], Text: string(b), Path: parsePath(f[2])}
+	c := &Case{ID: f[0], Text: string(b), Path: parsePath(f[2])}
+	if len(f) > 4 && f[4] != "-" && f[4] != "" {
+		for _, x := range strings.Split(f[4], ",") {
+			v, _ := strconv.Atoi(x)
+			c.Skips = append(c.Skips, v)
+		}
+	}
+	return c
 }
 
 // an object of 17..40 members in which the key at position pos (first / middle / last) occurs a second time,
@@ -1100,7 +1254,18 @@ func genCase(id int, r *rng.R) *Case {
 	if path == nil {
 		path = g.path(doc)
 	}
-	return &Case{ID: fmt.Sprintf("c%d", id), Text: text, Path: path}
+	// the visitor skips a few containers chosen among the first ones it is told about (ordinals are in announcement order)
+	var skips []int
+	ncont := strings.Count(text, "{") + strings.Count(text, "[")
+	if ncont > 0 {
+		for n := r.Intn(4); n > 0; n-- {
+			skips = append(skips, r.Intn(ncont))
+		}
+		if r.Chance(1, 6) {
+			skips = append(skips, 0)
+		}
+	}
+	return &Case{ID: fmt.Sprintf("c%d", id), Text: text, Path: path, Skips: skips}
 }
 
 func main() {
